@@ -1136,7 +1136,10 @@ impl LineBuffer {
             #[expect(clippy::unnecessary_to_owned)]
             for line in self.buf[start..end].to_string().split('\n') {
                 let max = line.len() - line.trim_start().len();
-                let deleting = min(max, amount);
+                let mut deleting = min(max, amount);
+                while !line.is_char_boundary(deleting) {
+                    deleting -= 1; // leading whitespace may be multi-byte
+                }
                 self.drain(index..index + deleting, Direction::default(), cl);
                 if self.pos >= index {
                     if self.pos.saturating_sub(index) < deleting {
